@@ -1166,6 +1166,10 @@ def hv2(F, R):
         st_ = [fn.term_of_rvalue(s_["rv"], b) for b, i, s_ in fn.stmts() if s_["k"] == "Assign" and [e[2] for e in fn.canon_place(s_["p"])["proj"] if e[0] == "field"][-1:] == ["next_id"]]
         ok2 = len(st_) == 1 and has_sub(st_[0], lambda q: q[0] == "call" and q[1] and q[1].endswith("wrapping_add") and len(q[2]) == 2 and q[2][1][:2] == ("c", 1) and "next_id" in tstr(q[2][0]))
     R.require(ok and ok2, fn, "generate", "generate() must return the counter and add 1", fn.loc(0))
+    # ... the whole counter: the handle is the 32-bit value itself, not a masked / tagged / shortened function of it (values would
+    # repeat after fewer than 2^32 generations, while an older handle of that value may still be open)
+    whole = len(rets) == 1 and rets[0][0] == "agg" and len(rets[0][3]) == 1 and not has_sub(rets[0][3][0], lambda q: q[0] in ("bin", "un", "cast") or (q[0] == "call" and q[1] and not q[1].endswith(("::clone", "Clone::clone"))))
+    R.require(whole, fn, "generate:whole-counter", "generate() returns %s: the handle must be the counter's value itself" % (tstr(rets[0])[:100] if rets else None), fn.loc(0))
     # the counter only ever moves forward: nothing but new() sets it and nothing but generate() changes it (a reset re-issues
     # handle values that callers may still hold from before - they would be accepted again and name other objects)
     writers = set()
